@@ -60,6 +60,12 @@ structure Ctx where
   held       : Nat := 0          -- retains currently held by worker threads
   regFailed  : Bool := false     -- freed on the accept-time registration-failure path
   origin     : Origin := .none
+  closing    : Bool := false     -- ghost: the loop is inside `cb_close` for this context
+  -- the reference count as the user callbacks saw it (`muggle_socket_ctx_ref_num` inside the callback)
+  oConn      : Nat := 0
+  oAdd       : Nat := 0
+  oCls       : Nat := 0
+  oRel       : Nat := 0
   deriving Repr
 
 structure St where
@@ -113,19 +119,19 @@ def cbFree (s : St) (c : Nat) : Except Err St := do
 
 def cbRelease (s : St) (c : Nat) : Except Err St := do
   let x ← s.live c
-  return s.set c { x with nRel := x.nRel + 1 }
+  return s.set c { x with nRel := x.nRel + 1, oRel := x.ref }
 
 def cbClose (s : St) (c : Nat) : Except Err St := do
   let x ← s.live c
-  return s.set c { x with nCls := x.nCls + 1 }
+  return s.set c { x with nCls := x.nCls + 1, oCls := x.ref }
 
 def cbConn (s : St) (c : Nat) : Except Err St := do
   let x ← s.live c
-  return s.set c { x with nConn := x.nConn + 1 }
+  return s.set c { x with nConn := x.nConn + 1, oConn := x.ref }
 
 def cbAddCtx (s : St) (c : Nat) : Except Err St := do
   let x ← s.live c
-  return s.set c { x with nAdd := x.nAdd + 1 }
+  return s.set c { x with nAdd := x.nAdd + 1, oAdd := x.ref }
 
 /-! ## socket_evloop_handle.c -/
 
@@ -212,6 +218,29 @@ def dispatchCtx (s : St) (c : Nat) (chunk : Nat) : Except Err St := do
     let s ← onClose s c
     return { s with reg := s.reg.erase c }
   else return s
+
+/-! The same turn in three pieces, so that acts of other threads can be placed *inside* it:
+`turnRead` = the read callback, `closeBegin` = `muggle_socket_evloop_on_close` up to and
+including the user's `cb_close` (the loop is now inside that callback), `closeEnd` = the rest
+of `on_close` (the loop drops its reference) and the removal from the back-end. -/
+
+def turnRead (s : St) (c : Nat) (chunk : Nat) : Except Err St := do
+  let x ← s.live c
+  if x.isListener then
+    (if s.backlog.isEmpty then pure s else acceptLoop (s.backlog.length + 1) s)
+  else if !x.inq.isEmpty || x.eof then onReadClient s c chunk
+  else pure s
+
+def closeBegin (s : St) (c : Nat) : Except Err St := do
+  let s ← cbClose s c
+  let x ← s.live c
+  return s.set c { x with closing := true }
+
+def closeEnd (s : St) (c : Nat) : Except Err St := do
+  let x ← s.live c
+  let s := s.set c { x with closing := false }
+  let s ← releaseCtx s c
+  return { s with reg := s.reg.erase c }
 
 /-- one turn of the queue loop of `muggle_socket_evloop_on_wake` -/
 def wakeOne (s : St) : Except Err St :=
@@ -318,6 +347,9 @@ inductive Act where
   | handOver
   | wake                                  -- the loop runs `on_wake`
   | dispatch (c : Nat) (chunk : Nat)      -- the loop gives registered context `c` its turn
+  | turnRead (c : Nat) (chunk : Nat)      -- … only the read callback of that turn
+  | closeBegin (c : Nat)                  -- … `on_close` up to the end of the user's `cb_close`
+  | closeEnd (c : Nat)                    -- … the rest of `on_close`, removal from the back-end
   | exit                                  -- the loop returns: clear + `on_exit`
   deriving Repr, DecidableEq
 
@@ -331,6 +363,9 @@ def apply (s : St) : Act → Except Err St
   | .handOver => return handOver s
   | .wake => onWake s.queue.length s
   | .dispatch c k => dispatchCtx s c k
+  | .turnRead c k => turnRead s c k
+  | .closeBegin c => closeBegin s c
+  | .closeEnd c => closeEnd s c
   | .exit => runExit s
 
 def run (s : St) : List Act → Except Err St
